@@ -213,6 +213,8 @@ def apply_fault(m, f):
     """Apply fault description `f` to the member dict `m` in place; False when its location is gone."""
     opcx = _opcx()
     k = f["kind"]
+    if k == "dangling" and f.get("how") == "member-deleted":
+        return m.pop(f["target"][1:], None) is not None
     if k == "dangling":
         item = opcx.rels_item_name(f["src"])
         if item not in m:
@@ -362,6 +364,10 @@ def locations(pkg, members, rnd, everything):
         for r in rels:
             if not r.external and not (src == "/" and r.type == RT_OD):
                 out.append(({"kind": "dangling", "src": src, "rid": r.id}, True))
+                if r.target != main_part(pkg) and pkg.has_part(r.target):
+                    # the other way a target goes missing: the member itself is deleted and whatever it left behind (its own
+                    # relationship item) stays in the package
+                    out.append(({"kind": "dangling", "src": src, "rid": r.id, "how": "member-deleted", "target": r.target}, True))
         if src != "/":
             out.append(({"kind": "norels", "part": src}, len(rels) > 0))
     ct = _parse(members["[Content_Types].xml"])
